@@ -642,6 +642,21 @@ def check_key_agreement(ctx):
                    "Scope::%s is indexed (panicking `[]`) by %s in %s, but this insert is keyed by %s: when the two names differ the reader finds no entry and encode panics"
                    % (m, ", ".join(sorted(ctx_fields)), ", ".join(sorted({g.id.rsplit("::", 1)[-1] for g, _, _ in R[m]})), sorted(sig) or "a value not taken from the type model"),
                    site="%s in %s" % (t.span, f.id))
+    # the panicking readers themselves: `map[key]` on a scope map is safe only if the function established that the key is in
+    # *this* scope (a contains_key / get on the same map that reaches the index); a resource that lives in an enclosing scope, or
+    # is reached through an alias, is not
+    for m in sorted(R):
+        if m != "resources":
+            continue     # Scope::instances is filled by import_deps, which the callers run for every interface they alias from (C01 R01.2 / C05 R05.6)
+        for f, t, sig in R[m]:
+            cfg = CFG(f)
+            guard = [l for l in f.calls() if (l.path or "").rsplit("::", 1)[-1] in ("contains_key", "get", "get_full") and l.bb != t.bb and cfg.reaches(l.bb, t.bb)
+                     and m in {nn for nn, o, v in narrow(prov, f, l.args[0]).fields if o == "wac_graph::encoding::Scope"}]
+            keyed = [l for l in guard if prov.slice(f, l.args[1]).locals & prov.slice(f, t.args[1]).locals]
+            ctx.ob("R14.8", "index-guarded|%s|%s" % (m, f.id.rsplit("::", 1)[-1]), bool(keyed),
+                   "the indexed key is looked up in the same scope map first" if keyed else
+                   "Scope::%s is indexed with `[]` under a key that is never tested for presence in the current scope: a valid component whose item lives in an enclosing scope "
+                   "(or is only reachable through an alias) makes encode panic with `no entry found for key`" % m, site="%s in %s" % (t.span, f.id))
     ctx.ob("R14.8", "count", n >= 4 and {"resources", "instances"} <= set(R), "name-keyed scope-map inserts checked: %d (maps indexed: %s)" % (n, sorted(R)), nontrivial=False)
 
 
